@@ -115,7 +115,7 @@ CONFIG = {
         "map fields, enum values, services with methods; elements with or without source lines, no comments; fields with "
         "bracket options and custom json_name — for these the scanner / option parser facts are evaluated per field by the "
         "checker (OptField) and carried to the printed position by the shift / frame lemmas of ReparseOpts.lean; statement "
-        "options of messages, enums and services likewise (BlockOpts)); for files with options on files / methods / oneofs / "
+        "options of messages, enums, services and methods likewise (BlockOpts / RpcOpts)); for files with options on files / oneofs / "
         "enum values, comments or extend blocks the reading is validated by print.file only. Which generated "
         "files are inside the shape is decided per print.file op by Cover.simpleFileB (proved sound: simpleFileB_sound) and "
         "reported under coverage.reparse_theorem_* (fraction, per origin, reasons for being outside)",
